@@ -52,8 +52,8 @@ def _op(draw):
 
 def strategy():
     init = st.dictionaries(st.sampled_from(KEYS), VALUE, min_size=1, max_size=4)
-    return st.builds(lambda i, ops: {'init': _jsonable(i), 'ops': [dict(o, v=_jsonable(o['v']), vs=[_jsonable(x) for x in o['vs']]) for o in ops]},
-                     init, st.lists(_op(), min_size=1, max_size=25))
+    return st.builds(lambda i, ops, fy: {'init': _jsonable(i), 'ops': [dict(o, v=_jsonable(o['v']), vs=[_jsonable(x) for x in o['vs']]) for o in ops], 'from_yaml': fy == 0},
+                     init, st.lists(_op(), min_size=1, max_size=25), st.integers(0, 2))
 
 
 # JSON cannot hold int dict keys: encode dicts as {'__d': [[k, v], ...]}
@@ -306,7 +306,8 @@ def check_invariants(root, model, history):
             raise Violation(f'C17: tree walk reports {n!r} at {p!r} but looking that path up gives {found!r}{hist}')
         if all(isinstance(c, (int, str)) and not (isinstance(c, str) and (c.isdigit() or not c.replace("_", "a").isalnum())) for c in p):
             back = NodePath.get_list_path(str(p))
-            if list(back) != list(p) or [type(c) for c in back] != [type(c) for c in p]:
+            kind = lambda c: 'int' if isinstance(c, int) else 'str'     # (a component of a loaded tree is a scalar node, an int / str subclass)
+            if list(back) != list(p) or [kind(c) for c in back] != [kind(c) for c in p]:
                 raise Violation(f'C17: path {list(p)} -> {str(p)!r} -> {list(back)} does not round-trip{hist}')
     ev = EvalContext().evaluate(copy.deepcopy(root)) if model else None
     if model and O.canon(O.to_builtin(ev)) != O.canon(model):
@@ -316,8 +317,16 @@ def check_invariants(root, model, history):
 def run_case(case):
     from awesomeyaml.nodes.dict import ConfigDict
     model = _unjson(case['init'])
-    root = ConfigDict(copy.deepcopy(model))
-    history = [f'init {model!r}']
+    if case.get('from_yaml'):
+        # "starting from any tree": one loaded from yaml text (its mapping keys are scalar nodes, not plain python values)
+        from awesomeyaml.builder import Builder
+        from .. import tdoc
+        b = Builder()
+        b.add_source(tdoc.render(tdoc.from_plain(model)), raw_yaml=True)
+        root = b.stages[0]
+    else:
+        root = ConfigDict(copy.deepcopy(model))
+    history = [f'init {model!r}' + (' (loaded from yaml)' if case.get('from_yaml') else '')]
     check_invariants(root, model, history)
     touched = {}
     nontrivial = False
